@@ -77,7 +77,9 @@ EdgeF(d) ==
   LET e  == DivEnds(d)
       lo == (OscOf(d)[1] * e[3]) \div e[2]
       hi == IF OscOf(d)[2] < 0 THEN 0 ELSE (OscOf(d)[2] * e[3]) \div e[1]
-  IN ((lo - 1)..(lo + 2)) \cup (IF hi > 0 THEN (hi - 1)..(hi + 1) ELSE {}) \cup {d.fout[1], d.fout[2]}
+  IN ((lo - 1)..(lo + 2)) \cup (IF hi > 0 THEN (hi - 1)..(hi + 1) ELSE {})
+     \cup (IF d.fout[1] > 1 THEN {d.fout[1]} ELSE {})      \* (1 stands for "no lower end declared" / "0 Hz")
+     \cup {d.fout[2]}                                      \* (-1 = no upper end declared: dropped by Fouts)
 EdgeFins == {200, 400, 800}                            \* 25, 50, 100 MHz
 AllPh    == {0, 45, 90, 135, 180, 270}
 
